@@ -28,6 +28,9 @@ CHECKS = {
  "C08": dict(engine="read-schedule", cat="exploration", ref="3.7",
    text="One reference stream is read through 10-24 SimReaders per run that differ only in read schedule (fixed chunks 1..400, seeded lists, one boundary in the first 400 bytes, EOF with the last bytes), reader kind (seekable, real bufio.Reader, plain), explicit vs auto-detected packet size and 188+k framing (k in 1..4,16); NextPacket and NextData sequences must equal the canonical run (explicit 188, one read); plain readers with auto-detection must agree with each other.",
    note="Trusted: reference multiplexer/re-framer. Scope: auto-detection needs >=2 packets and no 0x47 in bytes 188..size-1; bufio buffers >= 256 bytes."),
+ "C09": dict(engine="bitrot", cat="fault_enumeration", ref="3.8",
+   text="Sections mode: a unit of 1..N reference-encoded sections of the six table types (after a clean PAT, followed by a clean unit on the same PID, traffic on other PIDs) is corrupted in its section bytes only - for a third of the runs EVERY single-bit flip of every section byte of the unit is executed (exhaustive per unit), another third gets seeded byte substitutions, bursts up to 32 bits, truncations and extensions. Delivered data on the unit's PID must be a subsequence of what the stream carries with every touched section absent (CRC collisions, judged by a bit-serial reference CRC, are counted and never reported), untouched units and other PIDs unchanged. Muxed mode (last third): Muxer histories with ES descriptors of all 23 typed kinds (0..n items, Length 0 or arbitrary) plus user-defined/unknown ones; every PAT/PMT packet must frame to exactly one section whose section_length bytes follow, CRC residue 0 under the reference CRC, only 0xFF behind.",
+   note="Trusted: refts section encoders, framer and bit-serial CRC. Corruption is confined to table_id..last section byte. Whether a damaged unit yields an error or nothing is left open."),
  "C17": dict(engine="muxhist", cat="exploration", ref="3.4",
    text="Same histories; refinement against the MuxModel: tables before the first unit, automatic PAT+PMT exactly when the accepted-call count reaches the period or RAI on the PCR PID, nowhere else except explicit WriteTables; PMT content = model stream list in insertion order with type/descriptors/PCR PID; PAT maps program 1 to the PMT PID; automatic PIDs unique and outside reserved ranges; version +1 mod 32 iff content changed.",
    note="Trusted: MuxModel transition rules (DESIGN App. A). Calls rejected for an invalid argument may or may not count towards the period (both accepted)."),
